@@ -5,10 +5,12 @@ import (
 	"os"
 	"path/filepath"
 	"strings"
+	"sync"
 	"time"
 
 	"github.com/AdguardTeam/urlfilter"
 	"github.com/AdguardTeam/urlfilter/filterlist"
+	"github.com/AdguardTeam/urlfilter/filterutil"
 	"github.com/AdguardTeam/urlfilter/rules"
 )
 
@@ -29,6 +31,16 @@ func histStorageLine(g *Gen) string {
 	case 3:
 		return Pick(g, []string{"||", "@@||"}) + Pick(g, hostsNames[:6]) + "^" + Pick(g, []string{"", "$important", "$badfilter", "$dnstype=A", "$client=Mom", "$ctag=device_pc", "$dnsrewrite=1.2.3.4", "$dnsrewrite=NOERROR;MX;10 mail.example.org", "$denyallow=a.example.org", "$dnsrewrite=1.2.3.5"})
 	case 4:
+		if g.Chance(1, 3) {
+			// a plain rule and a $dnsrewrite rule for one name, the plain one first (and the other way round): asking the
+			// result for its rewrites must leave the result as it was
+			h := Pick(g, hostsNames[:6])
+			pair := []string{"||" + h + "^", "||" + h + "^$dnsrewrite=" + Pick(g, []string{"1.2.3.4", "NXDOMAIN", "x.example.net"})}
+			if g.Chance(1, 3) {
+				pair[0], pair[1] = pair[1], pair[0]
+			}
+			return pair[0] + "\n" + pair[1]
+		}
 		// rules whose first pattern match may come from either a hostname or a URL request
 		return "||" + Pick(g, hostPool) + Pick(g, []string{"^", "/ads", "^$script", "/*", ""})
 	case 5:
@@ -147,12 +159,14 @@ func genHistStorage(g *Gen, maxLines int) ([]listSpec, []string) {
 		n := g.Intn(maxLines + 1)
 		var sb strings.Builder
 		for i := 0; i < n; i++ {
-			l := strings.NewReplacer("\n", "", "\r", "").Replace(histStorageLine(g))
-			if !isASCII(l) {
-				continue
+			// a generator may return several lines that belong together
+			for _, l := range strings.Split(strings.ReplaceAll(histStorageLine(g), "\r", ""), "\n") {
+				if !isASCII(l) {
+					continue
+				}
+				all = append(all, l)
+				sb.WriteString(l + "\n")
 			}
-			all = append(all, l)
-			sb.WriteString(l + "\n")
 		}
 		ls = append(ls, listSpec{id, false, sb.String()})
 	}
@@ -382,6 +396,11 @@ func init() {
 			// one very long history: more distinct rules than any plausible bound on the rule cache are materialised,
 			// then names holding a lookup window twice are asked (decided by the fresh-engine oracle alone)
 			emit("big\t" + fmt.Sprint(17000+g.Intn(500)))
+			// histories of web requests (Engine.MatchRequest: request + referrer) on one engine, decided by the
+			// fresh-engine oracle: referrers with the same 32-bit hash, referrers differing in letter case, repeats
+			for k := 0; k < 4; k++ {
+				emit("web\t" + fmt.Sprint(g.Intn(1000000)))
+			}
 			for i := 0; i < cases; i++ {
 				ls, lines := genHistStorage(g, 30)
 				var ops []Req
@@ -430,6 +449,57 @@ func init() {
 		},
 		Run: func(line string, st *Stats) (string, string, bool) {
 			f := strings.Split(line, "\t")
+			if f[0] == "web" {
+				var sd int64
+				fmt.Sscan(f[1], &sd)
+				wg := &Gen{R: newRand(sd)}
+				// two different referrers with the same hash (two-character infix), one of them covered by a referrer-level
+				// exception; a block for the request itself
+				pre, suf := "http://"+Pick(wg, []string{"a.org", "shop.example", "news.test"})+"/p?i=", Pick(wg, []string{"", "&x=1", "/z"})
+				seenH := map[uint32]string{}
+				var pa, pb string
+				al := "abcdefghijklmnopqrstuvwxyz0123456789"
+			wsearch:
+				for a := 0; a < len(al); a++ {
+					for b := 0; b < len(al); b++ {
+						u := pre + string(al[(a+int(sd))%36]) + string(al[b]) + suf
+						hh := filterutil.FastHash(u)
+						if o, ok := seenH[hh]; ok && o != u {
+							pa, pb = o, u
+							break wsearch
+						}
+						seenH[hh] = u
+					}
+				}
+				excFor := func(u string) string {
+					return "@@||" + strings.TrimPrefix(u, "http://") + "^$" + Pick(wg, []string{"urlblock", "genericblock", "document", "urlblock,match-case"})
+				}
+				content := "||example.org^\n||example.org^$script,important\n" + excFor(pa) + "\n@@||a.org/Page$urlblock,match-case\n"
+				ls := []listSpec{{1, false, content}}
+				srcs := []string{pa, pb, pa, pb, pb, "http://a.org/Page", "http://a.org/page", "http://a.org/Page", "", pa, strings.ToUpper(pa[:12]) + pa[12:], pb}
+				wg.R.Shuffle(len(srcs), func(i, j int) { srcs[i], srcs[j] = srcs[j], srcs[i] })
+				h := newHistEngines(ls, sd%2 == 0)
+				defer h.cleanup()
+				e := urlfilter.NewEngine(h.storage)
+				flags := ""
+				for k, src := range srcs {
+					rq := func() *rules.Request {
+						return rules.NewRequest("http://example.org/x.js", src, rules.TypeScript)
+					}
+					got := e.MatchRequest(rq())
+					fh := newHistEngines(ls, false)
+					want := urlfilter.NewEngine(fh.storage).MatchRequest(rq())
+					fh.cleanup()
+					if classOf(got.GetBasicResult()) != classOf(want.GetBasicResult()) || got.GetCosmeticOption() != want.GetCosmeticOption() {
+						if flags == "" {
+							flags = fmt.Sprintf("!WEB-VERDICT-HISTORY-DEPENDENT:op=%d referrer=%s", k, src)
+						}
+					}
+				}
+				st.Add("ops", len(srcs))
+				st.Inc("web_histories")
+				return "ok" + flags, "echo\tok", pa != ""
+			}
 			if f[0] == "big" {
 				var n int
 				fmt.Sscan(f[1], &n)
@@ -515,6 +585,9 @@ func init() {
 			if tier == "thorough" {
 				bases, maxOps = 120, 40
 			}
+			for k := 0; k < 3; k++ {
+				emit("latefail\t" + fmt.Sprint(g.Intn(1000)))
+			}
 			for i := 0; i < bases; i++ {
 				ls, lines := genHistStorage(g, 25)
 				var ops []Req
@@ -565,6 +638,56 @@ func init() {
 		},
 		Run: func(line string, st *Stats) (string, string, bool) {
 			f := strings.Split(line, "\t")
+			if f[0] == "latefail" {
+				// a query (B) has missed the cache and is about to read the list; another query (A) retrieves and
+				// materialises the same rule; the lists become unreadable; B's read fails.  What A materialised is still
+				// served afterwards.  The interleaving is forced with the hook at the cache-miss point (no lock is held there).
+				var k int
+				fmt.Sscan(f[1], &k)
+				name := fmt.Sprintf("late%d.example", k)
+				ls := []listSpec{{1, false, "||" + name + "^\n0.0.0.0 host-" + name + "\n||other.example^\n"}}
+				flags := ""
+				for _, rq := range []Req{{Kind: "dns", Hostname: name}, {Kind: "dns", Hostname: "host-" + name}, {Kind: "url", URL: "http://" + name + "/x", Type: 4}} {
+					h := newHistEngines(ls, true)
+					paused, resume := make(chan struct{}), make(chan struct{})
+					var once sync.Once
+					filterlist.VerifSetHook(func(kind int, obj any) {
+						if kind == filterlist.VerifCacheMiss {
+							blocked := false
+							once.Do(func() { blocked = true })
+							if blocked {
+								close(paused)
+								<-resume
+							}
+						}
+					})
+					doneB := make(chan struct{})
+					go func() {
+						defer close(doneB)
+						protect(func() { h.runOp(rq) })
+					}()
+					select {
+					case <-paused:
+					case <-time.After(2 * time.Second):
+					}
+					before, _, _ := h.runOp(rq) // query A: retrieves and materialises
+					_ = h.storage.Close()
+					close(resume)
+					select {
+					case <-doneB:
+					case <-time.After(5 * time.Second):
+						flags += "!QUERY-BLOCKS-FOREVER"
+					}
+					filterlist.VerifSetHook(nil)
+					after, _, _ := h.runOp(rq)
+					if after != before && flags == "" {
+						flags = fmt.Sprintf("!MATERIALISED-RULE-LOST-AFTER-A-LATE-FAILURE:%s before=%s after=%s", rq.Hostname+rq.URL, before, after)
+					}
+					h.cleanup()
+				}
+				st.Inc("late_failure_scenarios")
+				return "ok" + flags, "echo\tok", true
+			}
 			ls := decodeStorage(f[0])
 			ops := decodeReqs(f[1])
 			h := newHistEngines(ls, true)
